@@ -23,6 +23,9 @@ Definition QQ (style : bytes) (f : nat + bytes) (l : option bytes) (k : kind) (r
 
 Record c19_step := St {
   s_reg : option (bytes * decoration);     (* the registration that led here (None for the initial state) *)
+  s_obs : bool;                            (* was anything observed here?  false for the registrations of a
+                                              concurrent burst (distinct names, released together): only the
+                                              state after the join is looked at *)
   s_listing : list bytes;                  (* auto.ListStyles() *)
   s_qs : list c19_query }.
 
@@ -74,7 +77,7 @@ Fixpoint steps_ok (init : registry) (ops : list op) (ss : list c19_step) : bool 
   | [] => true
   | s :: r =>
       let ops' := match s_reg s with Some (n, d) => ops ++ [OReg n d] | None => ops end in
-      step_ok init ops' s && steps_ok init ops' r
+      (if s_obs s then step_ok init ops' s else true) && steps_ok init ops' r
   end.
 
 Definition C19_ok (c : c19_case) : bool :=
@@ -97,8 +100,10 @@ Fixpoint steps_corr (reg : registry) (ss : list c19_step) : bool :=
   | [] => true
   | s :: r =>
       let reg' := match s_reg s with Some (n, d) => register n d reg | None => reg end in
-      list_eqb bytes_eqb (list_styles reg') (s_listing s)       (* incl. the sort oracle *)
-      && forallb (query_corr reg') (s_qs s)
+      (if s_obs s
+       then list_eqb bytes_eqb (list_styles reg') (s_listing s)       (* incl. the sort oracle *)
+            && forallb (query_corr reg') (s_qs s)
+       else true)
       && steps_corr reg' r
   end.
 
